@@ -101,7 +101,8 @@ impl Check for C15 {
         "C15"
     }
     fn ncases(&self, tier: Tier) -> u64 {
-        tier.sz(200, 1200)
+        // the last case is the thread clause (compiled generated parsers, see c13.rs)
+        tier.sz(200, 1200) + 1
     }
     fn rule(&self) -> &'static str {
         "one grammar + lexer per case (all syntaxes incl. Eco with 2-5 implicit tokens, many precedence lines, %avoid_insert, %epp, conflicts, seeds on which Pager re-processes and garbage-collects states) built in N separate processes (8 quick / 32 thorough; each has fresh RandomState hash keys): every process prints a digest of all grammar queries, the state graph, the table (conflicts as a sorted set), a second in-process build, and the bytes of the generated parser and lexer modules (build timestamp and scratch directory blanked); all N digests must be equal. Plus the thread clause (see the C13 engine): a compiled generated parser called from 16 threads released by a barrier on first use. Non-trivial = grammar with >= 2 entries in a RandomState map on its path (implicit tokens, precedences, %avoid_insert, %epp) or gc activity; distinct by grammar."
@@ -113,13 +114,28 @@ impl Check for C15 {
         tier.sz(80, 500)
     }
     fn required_counters(&self, _t: Tier) -> Vec<&'static str> {
-        vec!["cases_compared", "processes_spawned", "eco_multi_implicit_cases", "generated_modules_compared"]
+        vec!["cases_compared", "processes_spawned", "eco_multi_implicit_cases", "generated_modules_compared", "thread_runs", "thread_calls_overlapping_first_use"]
     }
     fn case_cap_s(&self, _t: Tier) -> u64 {
-        240
+        1500
     }
     fn run_case(&self, seed: u64, idx: u64, tier: Tier) -> CaseOut {
         let mut out = CaseOut::new();
+        if idx + 1 == self.ncases(tier) {
+            // thread clause: compile a few generated parsers and call each from 16 threads at once, in
+            // fresh processes, so that the first-use initialisation races with the other calls
+            let _lock = crate::c13::VctLock::acquire();
+            match crate::c13::vct_generate_and_build(seed ^ 0x15, 6, 8) {
+                Err((kind, what, detail)) => out.violate(&kind, &["harness"], what, detail),
+                Ok((n, _metas, secs)) => {
+                    out.count("rustc_seconds", secs);
+                    out.evals += 1;
+                    crate::c13::vct_thread_runs(&mut out, n, tier.sz(24, 300));
+                    out.sample = Some(json!({"thread_clause": {"modules": n, "processes": tier.sz(24, 300), "threads_per_process": 16}}));
+                }
+            }
+            return out;
+        }
         let mut rng = Rng::derive(seed, "C15", idx, 0);
         let g = gen_c15(&mut rng);
         let n = tier.sz(8, 32);
